@@ -83,6 +83,60 @@ def match_sites(fi: FuncInfo) -> List[Tuple[ast.AST, ast.AST, str, str]]:
             continue
         ma = [a for a in atoms if a not in inv][0]
         out.append((n, test, ma, ia[0]))
+    out.extend(_flip_sites(fi, inv))
+    return out
+
+
+def flips_of(fi: FuncInfo) -> dict:
+    """`if M:` statements of ``fi`` judged through the flip idiom (by id)
+    -> the flip statement."""
+    if not hasattr(fi, "_flips"):
+        fi._flips = {}                       # type: ignore[attr-defined]
+        _flip_sites(fi, inversion_atoms(fi))
+    return fi._flips                         # type: ignore[attr-defined]
+
+
+def _flip_sites(fi: FuncInfo, inv: Set[str]
+                ) -> List[Tuple[ast.AST, ast.AST, str, str]]:
+    """The flip idiom::
+
+        if I:
+            M = not M
+        if M: ...
+
+    is (M XOR I) as well -- provided M was computed for the element at hand
+    (stale_verdicts checks the read in the flip).  The second `if` is
+    reported as a match site with the synthetic test `(M and not I) or (I
+    and not M)`."""
+    out = []
+    if not hasattr(fi, "_flips"):
+        fi._flips = {}                       # type: ignore[attr-defined]
+    for n in walk_local(fi.node):
+        for fld in ("body", "orelse", "finalbody"):
+            blk = getattr(n, fld, None)
+            if not isinstance(blk, list):
+                continue
+            for a, b in zip(blk, blk[1:]):
+                if not (isinstance(a, ast.If) and not a.orelse and
+                        len(a.body) == 1 and src(a.test) in inv and
+                        isinstance(a.body[0], ast.Assign) and
+                        len(a.body[0].targets) == 1 and
+                        isinstance(a.body[0].targets[0], ast.Name) and
+                        isinstance(a.body[0].value, ast.UnaryOp) and
+                        isinstance(a.body[0].value.op, ast.Not) and
+                        src(a.body[0].value.operand) ==
+                        a.body[0].targets[0].id):
+                    continue
+                m = a.body[0].targets[0].id
+                if isinstance(b, ast.If) and src(b.test) == m:
+                    i = src(a.test)
+                    if not i.isidentifier():
+                        continue
+                    synth = ast.parse("({m} and not {i}) or ({i} and not "
+                                      "{m})".format(m=m, i=i),
+                                      mode="eval").body
+                    fi._flips[id(b)] = a     # type: ignore[attr-defined]
+                    out.append((b, synth, m, i))
     return out
 
 
@@ -178,6 +232,8 @@ def lone_match_tests(fi: FuncInfo) -> List[ast.AST]:
         if test is None:
             continue
         names = {x.id for x in ast.walk(test) if isinstance(x, ast.Name)}
+        if id(n) in flips_of(fi):
+            continue        # judged through the flip idiom (match_sites)
         if names & matched and not (names & set(inv)):
             from sa.views import _in_message
             if isinstance(n, ast.IfExp) and _in_message(n, fi.node):
@@ -236,8 +292,11 @@ def stale_verdicts(fi: FuncInfo) -> Tuple[List[Tuple[ast.AST, str]], int]:
             continue
         n += 1
         stale = {"hit": False}
+        # flip idiom: the flag is first read by the flip statement
+        if id(site) in flips_of(fi):
+            test = flips_of(fi)[id(site)].test
 
-        def scan(expr: ast.AST, st) -> None:
+        def scan(expr: ast.AST, st, test=test) -> None:
             if st:
                 return
             for x in ast.walk(expr):
@@ -248,7 +307,7 @@ def stale_verdicts(fi: FuncInfo) -> Tuple[List[Tuple[ast.AST, str]], int]:
             if isinstance(stmt, (ast.Assign, ast.AnnAssign, ast.AugAssign)):
                 tgts = stmt.targets if isinstance(stmt, ast.Assign) \
                     else [stmt.target]
-                if isinstance(stmt, ast.Assign) and stmt.value is test:
+                if isinstance(stmt, ast.Assign) and id(stmt) == id(site):
                     scan(stmt.value, st)
                 if any(isinstance(x, ast.Name) and x.id == matched
                        for t in tgts for x in ast.walk(t)):
